@@ -343,3 +343,29 @@ register('C06', 'proof',
                       'under its own name in context.applications',
                       'shape validity sequences_exist: start-sequence lists reachable on entry are allocated on entry '
                       '(engine modelling artefact, true of every Python heap)'])
+register('C18', 'proof',
+         'Decision logic proved for all inputs on the real source, with every string-level operation (ElementTree find / '
+         'findtext / get, re.search / match, int(), float(), strtobool, Supervisor datatypes) an assumed external whose '
+         'result is an uninterpreted function of its arguments: exact name beats any pattern and get_best_pattern returns '
+         'a matching pattern of maximal match length or None (loop invariant); load_model_rules terminates (decreases '
+         'loop_check, depth <= 3) and, per attribute, the element\'s own valid value supersedes the referenced model '
+         'chain; load_sequence / load_expected_loading / load_boolean / load_enum set the attribute iff the text is in '
+         'the domain, else leave the rules unchanged (frame), nothing escapes; ProcessRules / ApplicationRules '
+         'check_dependencies; every integer / enumeration / period converter of options.py raises ValueError or returns '
+         'a value of the documented range (float() returns ANY binary64 value, IEEE comparisons); _get_value falls back '
+         'to the default and lets nothing else escape; check_options. String-level pieces (alias expansion, sign '
+         'extraction, @ / # assignment, IP / multicast parsing, best pattern with the real re) are BOUNDED stand-ins on '
+         'the real functions, listed under bounded_standins and never counted as proved.',
+         not_decided=['XSD validation by lxml (external)', "'as documented' for '#' / '@' beyond the bounded reference",
+                      'to_filepaths / to_existing_file / check_dirpath (file system; only used through _get_value)',
+                      'SupvisorsOptions.__init__ as a whole (27 _get_value calls); the aliasing of the class default is '
+                      'established by the _get_value postcondition plus a syntactic scan',
+                      'load_status (formula parsing, C15) and check_identifier_list are assumed in the deductive part'],
+         assumptions=['ElementTree / lxml accessors are functions of the (immutable) document',
+                      'int(), float(), strtobool, supervisor.datatypes.integer / boolean raise exactly ValueError',
+                      'the literal pattern r".*[-_](\\d+)$" is valid and its group 1 is accepted by int() (checked on '
+                      'samples by a bounded stand-in)',
+                      'SupvisorsMapper always knows the local instance (instances not empty)',
+                      'namespecs given to load_program_rules are those of real processes (non-empty process name)',
+                      'dicts keyed by str never hold the key None'],
+         extra='pyvc.structural_c18')
